@@ -225,6 +225,10 @@ def gen_int(c, sc, depth, pure, leafy):
         return paren("%s if %s else %s" % (gen_expr(c, sc, INT, depth + 1, pure), gen_expr(c, sc, BOOL, depth + 1, pure),
                                             gen_expr(c, sc, INT, depth + 1, pure)))
     if r == 11 and not pure:
+        if sc.this_cls is not None and c.coin(1, 2):
+            # the receiver passed on as an ordinary argument
+            c.use("self_as_argument")
+            return "h%s(self, %s)" % (c.classes[sc.this_cls]["name"], gen_expr(c, sc, INT, depth + 1, pure))
         cands = call_candidates(c, sc, INT)
         if cands:
             return gen_call(c, sc, c.pick(cands), depth)
@@ -875,7 +879,9 @@ def gen_class(c, idx, globals_ro):
     fields = {}
     for i in range(nf):
         fields["f%d" % i] = c.pick([INT, INT, STR, LIST(INT)])
-    lines = ["class %s:" % name]
+    lines = ["def h%s(o, k):" % name,
+             "    return k + (%s)" % ("o.%s" % [fn for fn, ft in fields.items() if ft == INT][0] if any(ft == INT for ft in fields.values()) else "1"),
+             "class %s:" % name]
     cls = {"name": name, "fields": fields, "init_params": [], "methods": []}
     if c.coin(1, 3):
         c.use("class_field")
@@ -901,6 +907,8 @@ def gen_class(c, idx, globals_ro):
     for fn in fields:
         lines.append("        self.%s = a%s" % (fn, fn))
     c.classes.append(cls)
+    int_fields = [fn for fn, ft in fields.items() if ft == INT]
+    cls["helper_field"] = int_fields[0] if int_fields else None
     nm = c.draw(st.integers(1, 2))
     for j in range(nm):
         mname = "m%d" % j
